@@ -1,0 +1,6 @@
+//go:build !verif
+
+package schedule
+
+// verifYield is a no-op unless built with the verif tag (verification harness hook).
+func verifYield(string) {}
